@@ -220,6 +220,12 @@ class SymL:
     def hint(self, *terms):
         self.hints.extend(_z(t) for t in terms)
 
+    def member(self, arr, x):
+        """x occurs in the 1-d integer array arr"""
+        k = z3.Int('k!mem')
+        return z3.Exists([k], z3.And(k >= 0, k < arr.shape[0], z3.Select(arr.term, k) == _z(x)) if not (z3.is_quantifier(arr.term)) else
+                         z3.And(k >= 0, k < arr.shape[0], arr[k] == _z(x)))
+
     def sum(self, a):
         """np.sum of an array as a ghost function of its term (same symbol the executor uses)"""
         k = a.kind if a.kind != 'bool' else 'int'
@@ -340,6 +346,9 @@ class ConL:
 
     def hint(self, *terms):
         pass
+
+    def member(self, arr, x):
+        return any(int(v) == int(x) for v in arr)
 
     def sum(self, a):
         import numpy as np
